@@ -479,3 +479,52 @@ func sameOrNilAlias(rc core.RetCase, v ssa.Value, want ssa.Value) bool {
 	}
 	return false
 }
+
+
+// flagSetOf: the call raises a boolean flag field of some object: directly (AtomBool.Set(&x.f, true), the marker of a
+// private state type on &x.f), or through an unexported one-block helper of x that does only that (`x.markClosed()`).
+// Returns the flag's field name (canonical) and the path of the object.
+func flagSetOf(p *core.Prog, call *ssa.Call) (field, owner string, ok bool) {
+	direct := func(c *ssa.CallCommon) (*ssa.FieldAddr, bool) {
+		if g := core.Callee(c); g == nil || !core.FlagSetTrue(c) || len(c.Args) == 0 {
+			return nil, false
+		}
+		fa, isFA := c.Args[0].(*ssa.FieldAddr)
+		return fa, isFA
+	}
+	if fa, isD := direct(&call.Call); isD {
+		return core.FieldName(fa.X.Type(), fa.Field), core.Path(core.FieldOwner(fa)), true
+	}
+	g := core.Callee(&call.Call)
+	if g == nil || !p.InRepo(g) || len(g.Blocks) != 1 || g.Object() == nil || g.Object().Exported() || g.Signature.Recv() == nil || len(call.Call.Args) == 0 {
+		return "", "", false
+	}
+	var fa *ssa.FieldAddr
+	n := 0
+	pure := true
+	core.Instrs(g, func(ins ssa.Instruction) {
+		switch x := ins.(type) {
+		case *ssa.Call:
+			n++
+			if f2, isD := direct(&x.Call); isD && core.Resolve(core.FieldOwner(f2)) == ssa.Value(g.Params[0]) {
+				fa = f2
+			} else {
+				pure = false
+			}
+		case *ssa.Store:
+			// a plain bool flag: x.f = true
+			if f2, isFA := x.Addr.(*ssa.FieldAddr); isFA && isTrueConst(x.Val) && core.Resolve(core.FieldOwner(f2)) == ssa.Value(g.Params[0]) {
+				fa = f2
+				n++
+			} else if _, isAl := x.Addr.(*ssa.Alloc); !isAl {
+				pure = false
+			}
+		case *ssa.Send, *ssa.Go, *ssa.Defer, *ssa.MapUpdate:
+			pure = false
+		}
+	})
+	if fa == nil || n != 1 || !pure {
+		return "", "", false
+	}
+	return core.FieldName(fa.X.Type(), fa.Field), core.Path(call.Call.Args[0]), true
+}
